@@ -191,7 +191,8 @@ func replayLocking(c *core.Ctx, lfsBin string, b *behaviour, idx int) (*core.Vio
 		case "push":
 			os.Chmod(filepath.Join(d, file), 0o644)
 			os.WriteFile(filepath.Join(d, file), []byte(fmt.Sprintf("new content pushed by %s step %d\n", s.U, i)), 0o644)
-			if err := must(run(d, "git", "commit", "-q", "-am", "change "+file), "commit"); err != nil {
+			// commit this path only: other files the user edited earlier stay uncommitted
+			if err := must(run(d, "git", "commit", "-q", "-m", "change "+file, "--", file), "commit"); err != nil {
 				return nil, err
 			}
 			r = run(d, "git", "push", "origin", "main")
